@@ -120,6 +120,8 @@ func (e *env) exec(x *Exec) interface{} {
 	oOut, oRet, oRetSet, oDepth, oRange := e.out, e.ret, e.retSet, e.blockDepth, e.rangeDepth
 	e.out = &bytes.Buffer{}
 	e.ret, e.retSet, e.blockDepth, e.rangeDepth = nil, false, 0, 0
+	e.execDepth++
+	defer func() { e.execDepth-- }()
 	defer func() { e.out, e.ret, e.retSet, e.blockDepth, e.rangeDepth = oOut, oRet, oRetSet, oDepth, oRange }()
 	e.include(x.Name, x.Ctx, nil, false, false)
 	if !e.retSet {
